@@ -288,7 +288,9 @@ func compressWith(alg int, data []byte) []byte {
 		w.Write(data)
 		w.Close()
 	case 3:
-		w, _ := zstd.NewWriter(&b)
+		// a 1 MiB window, as in the bombs: the decoder allocates the window the frame header declares,
+		// so an ordinary stream must not declare more than it needs (hostile windows are `zwin:<log>`)
+		w, _ := zstd.NewWriter(&b, zstd.WithEncoderConcurrency(1), zstd.WithWindowSize(1<<20))
 		w.Write(data)
 		w.Close()
 	default:
@@ -387,7 +389,29 @@ func genDecomp(r *Rng, i int, tier string) string {
 		decl = Pick(r, []string{"small", "small", "zero", "limit", "cert"})
 		body = "good"
 	}
+	if i%9 == 5 { // a few dozen bytes of zstd whose frame header declares a window of 2^log bytes (D34)
+		alg = 3
+		adv = Pick(r, []string{"1,2,3", "3", "2,3"})
+		content = fmt.Sprintf("zwin:%d", Pick(r, []int{20, 22, 23, 24, 27, 29}))
+		decl = Pick(r, []string{"exact", "small", "limit", "plus1"})
+		body = "good"
+	}
 	return fmt.Sprintf("alg=%d adv=%s content=%s decl=%s body=%s salt=%d", alg, adv, content, decl, body, r.Intn(1000))
+}
+
+// zwinBody: 6000 zero bytes as a zstd stream in two flushed parts (so the frame is not single-segment)
+// whose frame header declares a window of 2^wlog bytes.
+func zwinBody(wlog int) []byte {
+	var b bytes.Buffer
+	zw, err := zstd.NewWriter(&b, zstd.WithEncoderConcurrency(1), zstd.WithWindowSize(1<<wlog))
+	if err != nil {
+		return nil
+	}
+	zw.Write(make([]byte, 3000))
+	zw.Flush()
+	zw.Write(make([]byte, 3000))
+	zw.Close()
+	return b.Bytes()
 }
 
 func decompInputs(in KV) (alg int, adv []tls.CertCompressionAlgo, decl uint32, body []byte, plainLen int) {
@@ -412,6 +436,9 @@ func decompInputs(in KV) (alg int, adv []tls.CertCompressionAlgo, decl uint32, b
 	if name == "bomb" {
 		plainLen = n << 20
 		body = bombBody(alg, n)
+	} else if name == "zwin" {
+		plainLen = 6000
+		body = zwinBody(n)
 	} else {
 		body = compressWith(alg, plain)
 	}
